@@ -529,7 +529,7 @@ theorem container_lenient :
 /-- tie: the container decoder ends with `return nil`, the surgery decoders with protojson. -/
 theorem container_shape_transcribed :
     (Gen.Decoders.unmarshalShape.lookup "MapValReq") = some ["var raw map[string]json.RawMessage",
-      "if err := json.Unmarshal(data, &raw); err != nil { return err }", "EDIT bySymbol", "EDIT note", "return nil"] ∧
+      "if err := json.Unmarshal(data, &raw); err != nil { return err }", "EDIT bySymbol", "EDIT note", "EDIT places", "EDIT home", "EDIT tags", "return nil"] ∧
     ((Gen.Decoders.unmarshalShape.lookup "BytesReq").bind (·.getLast?)) = some "return protojson.Unmarshal(modified, x)" := by
   constructor <;> rfl
 
